@@ -13,6 +13,11 @@ request kinds
   {"kind":"host", ...}                          a HOST-supplied datetime (sub-millisecond, timezone-aware, fold=1, datetime/date subclass, plain date) and a
                                                 host-supplied number (int/float subclass, IntEnum): (d + n) - d, (n + d) - d, ((d + n) + m) - (d + n) through
                                                 evaluate_expression or execute_script, and the ISO round trip of d (see host())
+  {"kind":"forms","vals":[form,...],"n":int,"nkind":..}   every datetime CONSUMER (7 getters, datetimeISOFormat +- isDate, stringNew, jsonStringify, d + n, n + d,
+                                                d - e, the six comparisons, dataSort) on HOST INPUT FORMS: form = {"wall":[y,mo,d,h,mi,s,us]} naive / date
+                                                or {"tz": "utc" | zone name | {"s":sec,"us":usec,"custom":0/1}, "utc_us": microseconds since 0001-01-01T00:00Z},
+                                                optional "cls" (sub | date | datesub) and "fold"; reference = C localtime() of the POSIX timestamp
+                                                cross-checked with zoneinfo (see form_value())
 
 TZ may also be a POSIX fixed-offset string '<-0330>3:30' (any whole-minute offset, no tz database entry needed); the reference zone is then
 datetime.timezone(<that offset>).
@@ -325,8 +330,158 @@ def host(req):
     return out
 
 
+# --- host input FORMS for every datetime consumer ------------------------------------------------------------------------
+
+class HostTz(datetime.tzinfo):
+    """A host-defined tzinfo (not datetime.timezone, not ZoneInfo): fixed offset."""
+
+    def __init__(self, offset):
+        super().__init__()
+        self._offset = offset
+
+    def utcoffset(self, dt):
+        return self._offset
+
+    def dst(self, dt):
+        return None
+
+    def tzname(self, dt):
+        return 'HOST'
+
+
+FORMS_SCRIPT = parser.parse_script(
+    'return arrayNew(arrayNew(datetimeYear(d), datetimeMonth(d), datetimeDay(d), datetimeHour(d), datetimeMinute(d), datetimeSecond(d), '
+    'datetimeMillisecond(d)), datetimeISOFormat(d), datetimeISOFormat(d, true), stringNew(d), jsonStringify(d), jsonStringify(objectNew("a", arrayNew(d))), '
+    'd + n, n + d, d - e, arrayNew(d < e, d <= e, d == e, d != e, d >= e, d > e), datetimeISOFormat(d, false))\n')
+EXPR_DIFF = {'binary': {'op': '-', 'left': {'variable': 'd'}, 'right': {'variable': 'e'}}}
+CMP_OPS = ['<', '<=', '==', '!=', '>=', '>']
+
+
+def form_value(form):
+    """One host input form -> (value handed to the implementation, reference dict). The reference is written from the POSIX timestamp:
+    C localtime() of the instant (and zoneinfo's astimezone() of it as a cross-check) for aware values, the wall time itself for naive
+    datetimes and dates. Nothing of bare_script is used here."""
+    cls = form.get('cls', 'datetime')
+    fold = 1 if form.get('fold') else 0
+    tz = form.get('tz')
+    if cls in ('date', 'datesub'):
+        y, mo, dd = form['wall'][:3]
+        d = (HostDate if cls == 'datesub' else datetime.date)(y, mo, dd)
+        loc, aware, fold = datetime.datetime(y, mo, dd), False, 0
+    elif tz is None:
+        y, mo, dd, h, mi, s, us = form['wall']
+        d = (HostDatetime if cls == 'sub' else datetime.datetime)(y, mo, dd, h, mi, s, us, fold=fold)
+        loc, aware = datetime.datetime(y, mo, dd, h, mi, s, us), False
+    else:
+        aware = True
+        utc_us = form['utc_us']
+        if isinstance(tz, str) and tz != 'utc':
+            d = (EPOCH1_UTC + datetime.timedelta(microseconds=utc_us)).astimezone(zoneinfo.ZoneInfo(tz))
+            if cls == 'sub':
+                d = HostDatetime(d.year, d.month, d.day, d.hour, d.minute, d.second, d.microsecond, tzinfo=d.tzinfo, fold=d.fold)
+        else:
+            if tz == 'utc':
+                tzinfo, off_us = UTC, 0
+            else:
+                off_us = tz['s'] * 10 ** 6 + tz.get('us', 0)
+                delta = datetime.timedelta(microseconds=off_us)
+                tzinfo = HostTz(delta) if tz.get('custom') else datetime.timezone(delta)
+            wall_us = utc_us + off_us
+            if not 0 <= wall_us < MAX_US:
+                return None, None
+            w = datetime.datetime(1, 1, 1) + datetime.timedelta(microseconds=wall_us)
+            d = (HostDatetime if cls == 'sub' else datetime.datetime)(w.year, w.month, w.day, w.hour, w.minute, w.second, w.microsecond,
+                                                                      tzinfo=tzinfo, fold=fold)
+        ts, sub = divmod(utc_us - UNIX_US, 10 ** 6)
+        try:
+            lt = time.localtime(ts)
+            loc = datetime.datetime(lt.tm_year, lt.tm_mon, lt.tm_mday, lt.tm_hour, lt.tm_min, lt.tm_sec, sub)
+        except (OverflowError, ValueError, OSError):
+            return d, None
+        try:
+            loc_zi = (EPOCH1_UTC + datetime.timedelta(microseconds=utc_us)).astimezone(Z).replace(tzinfo=None, fold=0)
+        except OverflowError:
+            loc_zi = None
+        fold = 0        # normalisation yields a naive wall time; the first pass of a repeated hour
+    zi_ok, _ = zi_exists(loc)
+    lc_ok, lc_off = libc_exists(loc)
+    off0, off1 = secs(loc.replace(tzinfo=Z, fold=0).utcoffset()), secs(loc.replace(tzinfo=Z, fold=1).utcoffset())
+    off = off1 if fold else off0
+    agree = zi_ok == lc_ok and lc_off in (off0, off1) and (not aware or loc_zi == loc)
+    ref = {'local': parts_floor(loc), 'us': loc.microsecond % 1000,
+           'full_us': ((loc.toordinal() - 1) * 86400 + loc.hour * 3600 + loc.minute * 60 + loc.second) * 10 ** 6 + loc.microsecond,
+           'off': off, 'exists': bool(zi_ok) and bool(lc_ok), 'agree': bool(agree), 'ambiguous': bool(zi_ok) and off0 != off1,
+           'own': None if not aware else [d.year, d.month, d.day]}
+    return d, ref
+
+
+def text_out(v, err):
+    return v if isinstance(v, str) else {'error': str(err or type(v).__name__)}
+
+
+def forms(req):
+    built = [form_value(f) for f in req['vals']]
+    if any(ref is None for _, ref in built):
+        return {'skip': True}
+    vals = [d for d, _ in built]
+    nv = host_number(req['n'], req.get('nkind', 'float'))
+    outs = []
+    for i, (d, ref) in enumerate(built):
+        e = vals[(i + 1) % len(vals)]
+        out = {'ref': ref}
+        got = []
+        for g in ('datetimeYear', 'datetimeMonth', 'datetimeDay', 'datetimeHour', 'datetimeMinute', 'datetimeSecond', 'datetimeMillisecond'):
+            v, err = call(g, [d])
+            got.append(num_out(v) if err is None else {'error': err})
+        out['get'] = got
+        out['text'] = text_out(*call('datetimeISOFormat', [d]))
+        out['text_f'] = text_out(*call('datetimeISOFormat', [d, False]))
+        out['datetext'] = text_out(*call('datetimeISOFormat', [d, True]))
+        out['str'] = text_out(*call('stringNew', [d]))
+        out['json'] = text_out(*call('jsonStringify', [d]))
+        out['json_n'] = text_out(*call('jsonStringify', [{'a': [d]}]))
+        for key, expr, loc_ in (('sum', EXPR_SUM, {'d': d, 'n': nv}), ('sum_r', {'binary': {'op': '+', 'left': {'variable': 'n'}, 'right': {'variable': 'd'}}},
+                                                                      {'d': d, 'n': nv})):
+            try:
+                out[key] = parts_floor(runtime.evaluate_expression(expr, None, loc_))
+            except Exception as exc:  # pylint: disable=broad-except
+                out[key] = {'error': type(exc).__name__}
+        try:
+            out['diff'] = num_out(runtime.evaluate_expression(EXPR_DIFF, None, {'d': d, 'e': e}))
+        except Exception as exc:  # pylint: disable=broad-except
+            out['diff'] = {'error': type(exc).__name__}
+        cmp_out = []
+        for op in CMP_OPS:
+            try:
+                cmp_out.append(runtime.evaluate_expression({'binary': {'op': op, 'left': {'variable': 'd'}, 'right': {'variable': 'e'}}}, None, {'d': d, 'e': e}))
+            except Exception as exc:  # pylint: disable=broad-except
+                cmp_out.append({'error': type(exc).__name__})
+        out['cmp'] = cmp_out
+        # the same through execute_script with the values as host globals (the runtime's own function-call path)
+        try:
+            res = runtime.execute_script(FORMS_SCRIPT, {'globals': {'d': d, 'e': e, 'n': nv}, 'maxStatements': 1000})
+            if not isinstance(res, list) or len(res) != 11:
+                raise TypeError('script result ' + type(res).__name__)
+            out['script'] = {'get': [num_out(v) for v in res[0]] if isinstance(res[0], list) else {'error': type(res[0]).__name__},
+                             'text': text_out(res[1], None), 'datetext': text_out(res[2], None), 'str': text_out(res[3], None),
+                             'json': text_out(res[4], None), 'json_n': text_out(res[5], None), 'sum': parts_floor(res[6]), 'sum_r': parts_floor(res[7]),
+                             'diff': num_out(res[8]), 'cmp': res[9], 'text_f': text_out(res[10], None)}
+        except Exception as exc:  # pylint: disable=broad-except
+            out['script'] = {'error': type(exc).__name__}
+        outs.append(out)
+    # dataSort on a datetime field holding every form of the request
+    sorts = {}
+    for name, spec in (('asc', [['t']]), ('desc', [['t', True]])):
+        rows = [{'t': d, 'i': i} for i, d in enumerate(vals)]
+        res, err = call('dataSort', [rows, spec])
+        sorts[name] = [r.get('i') for r in res] if err is None and isinstance(res, list) else {'error': str(err)}
+    return {'vals': outs, 'sort': sorts}
+
+
 def handle(req):
     kind = req['kind']
+    if kind == 'forms':
+        return forms(req)
     if kind == 'rt':
         d, err = call('datetimeNew', [float(a) for a in req['args']])
         if d is None:
